@@ -6,43 +6,6 @@ import AcbModel.Props.C04
 import AcbModel.Lemmas.Scale7
 namespace Acb
 
-theorem sumOver_zero (l : List Aff) : sumOver l (fun _ => (0 : Rat)) = 0 := by
-  induction l with
-  | nil => simp
-  | cons a as ih => simp only [sumOver_cons, ih]; grind
-
-theorem Tracker.new_sumInv {As : List Aff} (hn : As.Nodup) {dflt : Aff} {init : Option Status} {t : Tracker}
-    (hd : init ≠ none → dflt ∈ As) (h : Tracker.new dflt init = .ok t) : SumInv As t := by
-  have h0 : SumInv As { m := fun _ => none, latestAll := 0, latestAff := dflt } := by
-    refine ⟨fun a _ => by simp [Tracker.bal], ?_, by simp [Tracker.latestPostAll]⟩
-    have : (Tracker.bal { m := fun _ => none, latestAll := 0, latestAff := dflt }) = fun _ => (0 : Rat) := by
-      funext a; simp [Tracker.bal]
-    rw [this, sumOver_zero]
-  unfold Tracker.new at h
-  cases init with
-  | none => simp only [Except.ok.injEq] at h; subst h; exact h0
-  | some st =>
-    simp only at h
-    split at h
-    · exact h0.setLatest hn (hd (by simp)) h
-    · cases h
-
-theorem deltaList_eq_loop {dflt : Aff} {init : Option Status} {t : Tracker} (h : Tracker.new dflt init = .ok t)
-    (txs : List Tx) : deltaList dflt init txs = deltaLoop t [] [] txs := by
-  unfold deltaList
-  cases txs with
-  | nil => simp [deltaLoop]
-  | cons x xs => simp only [h]
-
-theorem splitRows_reverse (day : Int) (idx : Nat) (post pre : Rat) (L : List Aff) :
-    (splitRows day idx post pre L).reverse = splitRows day idx post pre L.reverse := by
-  unfold splitRows; rw [List.map_reverse]
-
-theorem nodup_reverse' {l : List Aff} (h : l.Nodup) : l.reverse.Nodup := by
-  unfold List.Nodup at *
-  rw [List.pairwise_reverse]
-  exact h.imp (fun h => Ne.symm h)
-
 /-- What "value-neutral" means for the two reports `A` (history `q ++ r`) and `B` (the same
     history with an `f`-fold split inserted after `q` and the rows of `r` restated): the same
     failure (or none); the rows before the split are identical; `B` has the split rows (no gain,
@@ -81,7 +44,7 @@ theorem C15_neutral (dflt : Aff) (init : Option Status) (hi : InitOk dflt init) 
       t2 past2 dq (r.map (restateTx (splitFactor post pre))) hi2.ready
     rw [hloop, splitRows_reverse]
     have hts : TrackerScaled (splitFactor post pre) t2 c2 := trackerScaled_of_split hi2.ready hr2 hbal hacb
-    obtain ⟨out, out', g1, g2, g3, g4⟩ := deltaLoop_scaled hf day idx post pre rfl As.reverse (nodup_reverse' hn)
+    obtain ⟨out, out', g1, g2, g3, g4⟩ := deltaLoop_scaled hf day idx post pre rfl As.reverse (nodup_reverse_aff hn)
       past2 (fun y hy => ⟨List.mem_reverse.mpr (hp2 y hy).2.1, (hp2 y hy).2.2⟩) r
       (fun x hx => ⟨List.mem_reverse.mpr (hr x hx).2.1, (hr x hx).2.2.2⟩) t2 c2 hts [] [] .nil (by simp) dq (dq ++ sd)
     simp only [List.nil_append] at g1 g2 g4
